@@ -229,6 +229,9 @@ def case_fn(case):
             r.check(False, 'no-exception', 'binner/raised/%s/%s' % (type(ex).__name__, cls), exc=repr(ex), rows=keep)
             continue
         g_tc, g_val, g_err, g_tw = out
+        if not r.check(np.shape(g_val) == np.shape(bref), 'binner-grid', 'binner/number-of-bins/' + cls,
+                       got=np.shape(g_val), want=np.shape(bref), rows=keep):
+            continue
         r.eq(g_tc, R['wn'], 'binner-grid', 'binner/centres/' + cls, rtol=tol, rows=keep)
         r.eq(g_tw, R['wnwidth'], 'binner-grid', 'binner/widths/' + cls, rtol=1e-11, rows=keep)
         live = sumw > 0
